@@ -51,7 +51,7 @@ inductive ThreadObs
   | mode (m : Mode)
   | dec (r : Outcome Dec)
   | probe (rs : List (Outcome Dec))
-deriving Repr
+deriving Repr, DecidableEq
 
 def threadStep (prof : Profile) (w : World) : ThreadOp → World × ThreadObs
   | .set t m => (w.setDefault t m, .none)
